@@ -13,9 +13,9 @@ import (
 )
 
 // Client message alphabet of C16.
-const C16Msgs = 13
+const C16Msgs = 14
 
-var C16MsgNames = []string{"EVENT r", "EVENT r(again)", "EVENT v@2", "EVENT v@1(older)", "EVENT del->r", "EVENT ephemeral", "REQ all", "REQ kinds:[0]", "REQ limit:1", "COUNT", "CLOSE", "AUTH", "REQ ids:[abc] (not hex of even length: the SQLite query fails)"}
+var C16MsgNames = []string{"EVENT r", "EVENT r(again)", "EVENT v@2", "EVENT v@1(older)", "EVENT del->r", "EVENT ephemeral", "REQ all", "REQ kinds:[0]", "REQ limit:1", "COUNT", "CLOSE", "AUTH", "REQ ids:[abc] (not hex of even length: the SQLite query fails)", "REQ [{limit:0},{kinds:[1]}]"}
 
 type c16Alphabet struct {
 	r, v2, v1, del, eph, auth *mocrelay.Event
@@ -58,6 +58,8 @@ func (a *c16Alphabet) msg(code int, n int) mocrelay.ClientMsg {
 		return CloseMsg(sub)
 	case 12:
 		return ReqMsg(sub, &mocrelay.ReqFilter{IDs: []string{"abc"}})
+	case 13:
+		return ReqMsg(sub, &mocrelay.ReqFilter{Limit: I64(0)}, &mocrelay.ReqFilter{Kinds: []int64{1}})
 	}
 	m, _ := mocrelay.NewClientAuthMsg(a.auth)
 	return m
@@ -278,9 +280,17 @@ func sqliteExpected(inserted []*mocrelay.Event, fs []*mocrelay.ReqFilter) map[st
 			}
 		}
 	}
+	// a filter with limit 0 contributes nothing to the answer (the alphabet has no other limit in a
+	// multi-filter request)
+	var eff []*mocrelay.ReqFilter
+	for _, f := range fs {
+		if f.Limit == nil || *f.Limit != 0 || len(fs) == 1 {
+			eff = append(eff, f)
+		}
+	}
 	var live []*mocrelay.Event
 	for _, e := range stored {
-		if !deleted[e.ID] && refmodel.MatchFilters(fs, e) {
+		if !deleted[e.ID] && refmodel.MatchFilters(eff, e) {
 			live = append(live, e)
 		}
 	}
